@@ -53,11 +53,28 @@ def gen_ps(rng, maxn=60):
     return ps
 
 
+def coincide(rng, ps):
+    """re-key ps so that the number of encoded words is (almost) the key span: sizes that shortcuts confuse with 'dense'"""
+    keys = sorted(set(k for k, _ in ps))
+    if len(keys) < 2:
+        return ps
+    words = len(set((k, p // 18) for k, p in ps))
+    span = words + rng.choice([0, 0, 0, -1, 1])
+    if span < len(keys) or span > MAXK:
+        return ps
+    k0 = rng.choice([0, rng.randint(0, 1000), MAXK - span + 1])
+    inner = sorted(rng.sample(range(k0 + 1, k0 + span - 1), len(keys) - 2)) if len(keys) > 2 else []
+    new = dict(zip(keys, [k0] + inner + [k0 + span - 1]))
+    return [[new[k], p] for k, p in ps]
+
+
 def gen(rng, tier):
     n = {"quick": 500, "thorough": 10000, "search": 1500}[tier]
     cases = [{"kind": "all", "ps": []}, {"kind": "all", "ps": [[0, 0]]}, {"kind": "all", "ps": [[MAXK, MAXP]]}]
     for _ in range(n):
         ps = gen_ps(rng)
+        if rng.random() < 0.3:
+            ps = coincide(rng, ps)
         cases.append({"kind": "all", "ps": ps})
         keys = sorted(set(k for k, _ in ps))
         ks = sorted(set(rng.sample(keys, rng.randint(0, len(keys))) + [rng.randint(0, MAXK) for _ in range(rng.randint(0, 2))]))
